@@ -46,13 +46,19 @@ def main():
     # lower all units first (serial; fail closed)
     units = sorted({g.unit for g in groups if g.unit})
     metas = {}
+    failed_units = {}
     for u in units:
         try:
             metas[u] = vdriver.lower_unit(u)
         except LoweringError as e:
+            # the groups of this unit are undecided; groups on other units (e.g. refactor-robust bounded stand-ins) still run
+            failed_units[u] = str(e)
             print(f'UNDECIDED property={pid}: lowering of unit {u} failed: {e}')
-            write_evidence(pid, a.tier, seed, mod, [], metas, time.time() - t0, undecided=f'lowering failed: {e}')
-            return 2
+    if failed_units and len(failed_units) == len(units):
+        write_evidence(pid, a.tier, seed, mod, [], metas, time.time() - t0, undecided='lowering failed: ' + '; '.join(failed_units.values()))
+        return 2
+    lowering_failed = [g for g in groups if g.unit in failed_units]
+    groups = [g for g in groups if g.unit not in failed_units]
     results = []
     with cf.ThreadPoolExecutor(max_workers=a.jobs) as ex:
         futs = {ex.submit(run_group, g, os.path.join(vdriver.BUILD, 'work', pid, re.sub(r'\W', '_', g.name))): g
@@ -64,7 +70,12 @@ def main():
                 r = vdriver.Result(futs[f])
                 r.detail = 'driver exception: ' + traceback.format_exc()
                 results.append(r)
-    results.sort(key=lambda r: [g.name for g in groups].index(r.group.name))
+    for g in lowering_failed:
+        r = vdriver.Result(g)
+        r.detail = 'lowering of unit ' + g.unit + ' failed: ' + failed_units[g.unit]
+        results.append(r)
+    order = [g.name for g in groups] + [g.name for g in lowering_failed]
+    results.sort(key=lambda r: order.index(r.group.name))
     known = [k for k in load_known() if k['property'] == pid]
     violations = []
     undecided = []
